@@ -12,6 +12,24 @@ def _first(node):
     return kw, params, annot, rest
 
 
+def descr_text(rest):
+    """the text of a Description: parentheses on their own lines are not part of it, the common
+    indentation of its lines and the blank lines around it are dropped"""
+    lines = rest.split("\n")
+    while lines and not lines[0].strip():
+        lines.pop(0)
+    while lines and not lines[-1].strip():
+        lines.pop()
+    if len(lines) >= 2 and lines[0].strip() == "(" and lines[-1].strip() == ")":
+        lines = lines[1:-1]
+        while lines and not lines[0].strip():
+            lines.pop(0)
+        while lines and not lines[-1].strip():
+            lines.pop()
+    ind = min((len(l) - len(l.lstrip(" \t")) for l in lines if l.strip()), default=0)
+    return "\n".join(l[ind:] if l.strip() else "" for l in lines).strip()
+
+
 def _fmt(params):
     if "regex" in params:
         return "plainString"
@@ -68,7 +86,7 @@ def expected(roots):
         kw, ps, annot, body = _first(n)
         if kw == "TAG":
             d = _child(n, "Description")
-            tags.append([ps[0], annot if annot else ps[0], _first(d)[3].strip() if d else None, [], []])
+            tags.append([ps[0], annot if annot else ps[0], descr_text(_first(d)[3]) if d else None, [], []])
     for n in roots:
         kw, ps, annot, body = _first(n)
         if kw == "JSIGHT":
@@ -76,7 +94,7 @@ def expected(roots):
         elif kw == "INFO":
             t, v, d = _child(n, "Title"), _child(n, "Version"), _child(n, "Description")
             sk["info"] = {"title": H(_first(t)[1][0]) if t else H(""), "version": H(_first(v)[1][0]) if v else H(""),
-                          "descr": H(_first(d)[3].strip()) if d else None}
+                          "descr": H(descr_text(_first(d)[3])) if d else None}
         elif kw == "SERVER":
             b = _child(n, "BaseUrl")
             sk["servers"].append([H(ps[0]), H(annot or ""), H(_first(b)[1][0]) if b else H("")])
@@ -109,7 +127,7 @@ def expected(roots):
         q = _child(node, "Query")
         rq = _child(node, "Request")
         i = {"k": "http", "id": H(iid), "method": H(kw), "path": H(path), "annot": H(annot or ""),
-             "descr": H(_first(d)[3].strip()) if d else None, "tags": [H(x) for x in names],
+             "descr": H(descr_text(_first(d)[3])) if d else None, "tags": [H(x) for x in names],
              "query": None, "request": None, "responses": []}
         if q:
             qk, qps, _, _ = _first(q)
@@ -150,7 +168,7 @@ def expected(roots):
                     names = tag_names(c, n, False, iid, ps[0])
                     d = _child(c, "Description")
                     sk["inters"].append({"k": "rpc", "id": H(iid), "method": H(cps[0]), "path": H(ps[0]), "annot": H(cannot or ""),
-                                         "descr": H(_first(d)[3].strip()) if d else None, "tags": [H(x) for x in names],
+                                         "descr": H(descr_text(_first(d)[3])) if d else None, "tags": [H(x) for x in names],
                                          "params": _child(c, "Params") is not None, "result": _child(c, "Result") is not None})
         elif kw in ("GET", "POST", "PUT", "PATCH", "DELETE"):
             http_method(n, None, None)
